@@ -207,8 +207,9 @@ func genDoc(t *rapid.T) *Doc {
 		d.WordSz = rapid.SampledFrom([]int{4, 8}).Draw(t, "wordsz")
 		d.BigEnd = rapid.Bool().Draw(t, "bigendian")
 		d.Rate = rapid.SampledFrom([]int64{1, 10000, 100}).Draw(t, "period")
-		mode := rapid.IntRange(0, 3).Draw(t, "cpumode")
+		mode := rapid.IntRange(0, 4).Draw(t, "cpumode")
 		tiny := mode == 3
+		leafOnly := mode == 4
 		if tiny {
 			// every word of the file below 128, big-endian, no memory map: each byte pair then reads as a
 			// protobuf "field 0, one-byte varint" and the whole file is also a (meaningless) protobuf message
@@ -241,10 +242,25 @@ func genDoc(t *rapid.T) *Doc {
 			}
 			d.Recs = append(d.Recs, r)
 		}
+		if leafOnly {
+			// several one-address records, and every deeper record goes through one call site: the second frame
+			// is shared by all records that have one, but by no means by "nearly all samples" - it stays
+			nl := rapid.IntRange(1, 3).Draw(t, "nleafonly")
+			d.Recs = append(d.Recs, d.Recs[0], d.Recs[1])
+			for i := range d.Recs {
+				r := &d.Recs[i]
+				r.Addrs = append([]uint64{}, r.Addrs...)
+				if i < nl {
+					r.Addrs = r.Addrs[:1]
+				} else {
+					r.Addrs[1] = 0x6000
+				}
+			}
+		}
 		// the "second frame shared by (nearly) all samples" heuristic must not be in play by accident
-		same := true
+		same := !leafOnly
 		for _, r := range d.Recs {
-			if r.Addrs[1] != d.Recs[0].Addrs[1] {
+			if !leafOnly && r.Addrs[1] != d.Recs[0].Addrs[1] {
 				same = false
 			}
 		}
